@@ -46,18 +46,19 @@ type c06Run struct {
 }
 
 type c06Ex struct {
-	Caller    int    `json:"caller"`
-	K         int    `json:"k"`
-	Name      string `json:"qname"`
-	CallerID  uint16 `json:"caller_id"`
-	DMode     string `json:"deadline_placement"`
-	DeadUs    int    `json:"deadline_us"`
-	UseCancel bool   `json:"explicit_cancel"`
-	GapMode   string `json:"gap_mode"`
-	GapUs     int    `json:"gap_before_us"`
-	RMode     string `json:"reply_shape"`
-	DelayUs   int    `json:"server_delay_us"`
-	ReplyUs   int    `json:"server_reply_duration_us"`
+	Caller     int    `json:"caller"`
+	K          int    `json:"k"`
+	Name       string `json:"qname"`
+	FromUDPLeg bool   `json:"returned_message_from_udp_leg,omitempty"`
+	CallerID   uint16 `json:"caller_id"`
+	DMode      string `json:"deadline_placement"`
+	DeadUs     int    `json:"deadline_us"`
+	UseCancel  bool   `json:"explicit_cancel"`
+	GapMode    string `json:"gap_mode"`
+	GapUs      int    `json:"gap_before_us"`
+	RMode      string `json:"reply_shape"`
+	DelayUs    int    `json:"server_delay_us"`
+	ReplyUs    int    `json:"server_reply_duration_us"`
 
 	TCall    int64  `json:"t_call_ns"`
 	TRet     int64  `json:"t_return_ns"`
@@ -315,7 +316,9 @@ func c06Do(tr transport.Transport, ex *c06Ex) {
 	if m != nil {
 		ex.Returned = true
 		ex.GotID = m.Header.ID
-		ex.Nonce, _, ex.HasNonce = upNonce(m)
+		var leg byte
+		ex.Nonce, leg, ex.HasNonce = upNonce(m)
+		ex.FromUDPLeg = leg == scripted.LegUDP
 		ex.GotName, _, _, _ = upQuestion(m)
 		dnsmsg.ReleaseMsg(m)
 	}
@@ -449,6 +452,12 @@ func c06Judge(c *Ctx, run c06Run, plan [][]*c06Ex, snap *scripted.Snapshot, samp
 				continue
 			}
 			r := byNonce[ex.Nonce]
+			if r == nil && ex.FromUDPLeg {
+				// fallback variant: the message is the (truncated) UDP reply, not anything that travelled
+				// over the TCP connection - whether it may be returned is C16's question, not C06's
+				cnt["returned_message_is_the_udp_reply_not_judged_here"]++
+				continue
+			}
 			if r == nil {
 				viol("K1:unknown-nonce", fmt.Sprintf("run %d: exchange %q returned nonce %d which the TCP server never sent (leg?)", run.Idx, ex.Name, ex.Nonce), c06Witness{Rule: "K1", Exchange: ex, Query: q0})
 				continue
